@@ -5,7 +5,7 @@
 set -u
 PATCH=$(readlink -f "$1"); shift
 WT=${SEED_WT:-/var/tmp/seedwt}
-exec 9>/var/tmp/seedwt.lock; flock 9
+exec 9>"$WT.lock"; flock 9
 git -C /repo worktree remove --force "$WT" >/dev/null 2>&1
 BUILD=${SEED_BUILD:-/var/tmp/build-seed}
 git -C /repo worktree add -q --detach "$WT" HEAD || exit 2
